@@ -137,25 +137,34 @@ def gen_chain(r, coin, n, max_txs=4, max_io=3, segwit=True, odd_widths=True, aux
     return blocks
 
 
-def simple_layout(scn, blocks, per_file=None, r=None, pad=5, first_height=0, status=K.ACTIVE, gap=0):
-    """blocks placed sequentially, `per_file` blocks per blk file; writes the index records of an active chain"""
-    fno, cnt, pos = 0, 0, 0
-    name = K.blkname(fno, pad)
-    scn.add_file(name)
-    for i, b in enumerate(blocks):
-        if per_file and cnt >= per_file:
-            fno, cnt, pos = fno + 1, 0, 0
-            name = K.blkname(fno, pad)
+def simple_layout(scn, blocks, per_file=None, r=None, pad=5, first_height=0, status=K.ACTIVE, gap=0, swap=0.0):
+    """blocks placed `per_file` to a blk file, in height order — or, with `swap` > 0 (needs r), in ARRIVAL order: neighbours inside a
+    file are swapped with that probability, as when a node receives blocks out of order; writes the index records of an active chain"""
+    fnos = [(i // per_file) if per_file else 0 for i in range(len(blocks))]
+    order = list(range(len(blocks)))
+    if swap and r is not None:
+        for j in range(len(order) - 1):
+            if fnos[order[j]] == fnos[order[j + 1]] and r.random() < swap:
+                order[j], order[j + 1] = order[j + 1], order[j]
+    pos = {}
+    for i in order:
+        b = blocks[i]
+        fno = fnos[i]
+        name = K.blkname(fno, pad)
+        if fno not in pos:
             scn.add_file(name)
+            pos[fno] = 0
         if gap and r is not None:
             g = r.randrange(0, gap)
-            scn.put(name, pos, rb(r, g))
-            pos += g
+            scn.put(name, pos[fno], rb(r, g))
+            pos[fno] += g
         raw = b.enc()
-        off = scn.place_block(name, pos, raw)
-        pos = off + len(raw)
-        cnt += 1
+        off = scn.place_block(name, pos[fno], raw)
+        pos[fno] = off + len(raw)
         scn.kvs.append(K.record(b.hash(), first_height + i, status, len(b.txs), fno, off, b.header(), undo=i * 7 + 1))
+    for fno in sorted(set(fnos)) or [0]:
+        if fno not in pos:
+            scn.add_file(K.blkname(fno, pad))
     return scn
 
 
